@@ -254,6 +254,9 @@ def _materialise(it, registry=None):
         return JSONRPCMessage.model_validate(copy.deepcopy(o)), o
     cls = {"typed_request": JSONRPCRequest, "typed_notification": JSONRPCNotification, "typed_response": JSONRPCResponse,
            "typed_error": JSONRPCError}[sh]
+    if it["k"] % 3 == 0:
+        # built directly, relying on the model's default for "jsonrpc" (the member still belongs on the wire)
+        return cls(**{k_: v_ for k_, v_ in copy.deepcopy(o).items() if k_ != "jsonrpc"}), o
     return cls.model_validate(copy.deepcopy(o)), o
 
 
